@@ -357,10 +357,7 @@ fn eval_step_expr(
 ) -> error::Result<Vec<dom::XmlNode>> {
     match step {
         expr::Step::Current => Ok(vec![node]),
-        expr::Step::Parent => match node {
-            dom::XmlNode::Document(_) => Ok(vec![]),
-            _ => Ok(vec![node.parent_node().unwrap()]),
-        },
+        expr::Step::Parent => Ok(node.parent_node().into_iter().collect()),
         expr::Step::Test(axis, test, predicate) => {
             eval_axis_node_test(axis, test, predicate, node, context)
         }
@@ -389,7 +386,7 @@ fn eval_axis_node_test(
             expr::AxisName::Following => following(node),
             expr::AxisName::FollowingSibling => following_sibling(node),
             expr::AxisName::Namespace => namespace(node),
-            expr::AxisName::Parent => vec![node.parent_node().unwrap()],
+            expr::AxisName::Parent => node.parent_node().into_iter().collect(),
             expr::AxisName::Preceding => preceding(node),
             expr::AxisName::PrecedingSibling => preceding_sibling(node),
             expr::AxisName::Current => vec![node],
